@@ -115,6 +115,12 @@ THR_CORNERS = [
     ([["add_graph", 1, 2]], [[["add_graph", 1, 3]], [["add_blank", 1, 1], ["add_graph", 1, 1]]]),
     ([["add_graph", 1, 2]], [[["del_graph", 1, 0], ["add_graph", 1, 2]], [["add_blank", 1, 1], ["extract_graph", 1, 0]]]),
     ([], [[["add_graph_bad", 1, 2], ["add_blank", 1, 1]], [["add_graph", 1, 1], ["add_blank", 2, 1]]]),
+    # deletions concurrent with imports and node creation (2 and 3 threads)
+    ([["add_graph", 1, 2]], [[["del_all_graphs", 1, 0], ["add_graph", 2, 2]], [["add_graph", 1, 3], ["add_blank", 1, 1]], [["add_blank", 2, 1]]]),
+    ([["add_graph", 1, 2], ["add_graph", 2, 1]], [[["del_graph", 1, 0], ["add_graph_direct", 1, 2]], [["add_blank", 1, 1], ["add_blank", 2, 1]]]),
+    ([["add_graph", 1, 1]], [[["del_all_graphs", 1, 0]], [["add_blank", 1, 1], ["extract_graph", 1, 0]], [["add_graph", 2, 2], ["del_graph", 2, 0]]]),
+    # failing calls (unhashable id) next to working ones: the lock must come back
+    ([["add_graph", 1, 2]], [[["get_graph_unh", 1, 1], ["add_blank", 1, 1]], [["extract_graph_unh", 1, 1], ["add_blank", 1, 1]]]),
 ]
 
 
@@ -288,7 +294,7 @@ def check_results(case, ops_results, res, payload):
         msg = r[2] if len(r) > 2 else ""
         if "release unlocked lock" in msg:
             continue
-        scan = "changed size during iteration" in msg
+        scan = "changed size during iteration" in msg or "keys changed during iteration" in msg
         if not scan and rebuilds and op[0] == "add_node" and r[1] == "key":
             continue
         why = "scan-disturbed-by-concurrent-insert" if scan else "unexpected-" + r[1]
@@ -513,7 +519,7 @@ def oracle(ctx, res, scale=1):
             for s in range(ctx.scale(5, 40)):
                 dec = [rng.randrange(len(threads)) for _ in range(150)]
                 eval_thr({"kind": "thr", "flavour": fl, "setup": setup, "threads": threads, "decisions": dec}, res)
-    for i in range(ctx.scale(300, 5000) * scale):
+    for i in range(ctx.scale(300, 4000) * scale):
         setup, threads = gen_thr_case(rng)
         dec = [rng.randrange(len(threads)) for _ in range(rng.randrange(20, 200))]
         case = {"kind": "thr", "flavour": rng.choice(("shared", "disjoint")), "setup": setup, "threads": threads, "decisions": dec}
